@@ -3,6 +3,21 @@ ID = 'C12'
 MODS = ['contracts.c_externs', 'contracts.c_utils', 'contracts.c_ml']
 FUNCS = ['yalafi.utils.get_txt_pos_ml', 'yalafi.utils.ml_append_placeholder',
          'yalafi.utils.get_txt_pos']
+# the parser's own language stack (placeholders, shorthands, and the hard
+# language token that heads every detached flow)
+MORE = [(['yalafi.parameters.Parameters.change_parser_lang',
+          'yalafi.parameters.Parameters.lang_context_lang'],
+         ['contracts.c_externs', 'contracts.c_lang'])]
+
+
+def lemmas():
+    from contracts import tokmodel as tm
+    p = tm.real_parms()
+    yield ("table:'en'-is-a-parser-language", 'en' in p.parser_lang_settings,
+           '')
+    yield ('table:initial-language-stack-has-one-entry',
+           len(p.parser_lang_stack) == 1 and
+           p.parser_lang_stack[-1][0] is p.lang_context, '')
 TRUSTED = ['assumed: Parameters.check_parser_lang returns a key of parser_lang_settings; every language setting has a non-empty '
            'lang_change_repl collection (table read by evaluation in C06)']
 ASSUMPTIONS = [
@@ -16,7 +31,7 @@ LEVEL_TEXT = ('Deductive proof for the section splitter: every section and every
     'len(map) and map entries inside the source (range preserved through merging of sections and through the placeholder of a '
     'short foreign insertion, whose characters take positions of the insertion itself); the language stack never becomes empty '
     '(so the label of a section always exists); the merge loop terminates (variant: number of remaining sections); wherever the text of one section is glued to another (A.txt += B.txt in get_txt_pos_ml) both carry the same language, so the words of B stay in a part of their language; the '
-    'placeholder collection keeps its length under rotation; all subscripts (sections[1], sections[2], incl.pos[start], '
+    'placeholder collection keeps its length under rotation; Parameters.change_parser_lang keeps the parser language stack non-empty, a closing switch pops (never the initial entry), a hard switch replaces exactly the top entry, a soft switch pushes, afterwards the top entry carries the language of the token and lang_context is the settings object of the top entry; lang_context_lang returns the language of the top entry; all subscripts (sections[1], sections[2], incl.pos[start], '
     'incl.txt[-1], repl[0]) are safe.')
 LEVEL_NOTE = 'Lemma level only; the end-to-end sentence of C12 is not decided by this technique.'
 TECHNIQUE = 'contract-based deductive verification: object invariant on language sections, loop invariants and variant, z3'
